@@ -17,6 +17,7 @@
              {"s":"merged","opt":"meld"|"append"}           pushes Merged()
              {"s":"patch","r":doc,"op":…,"path":[…]|null,"from":[…]|null,"v":reg|null}
              {"s":"patchOp","r":doc,"op":…,"path":…,"from":…,"v":reg | "vf":[comp…]}
+             {"s":"setOp","r":doc,"merge":bool,"p":[comp…],"d":node}   pipeline.SetOp.Do (payload decoded anew)
              {"s":"eval","r":reg,"p":[tok…]}                Path.Eval: pushes the node (or null)
              {"s":"w","r":reg,"p":[nav…],"op":…,"name":…,"idx":…}   in-place builder write at the
                                                              node reached from the register
@@ -27,6 +28,7 @@
 import YtkModel.Wire
 import YtkModel.HeapOverlay
 import YtkModel.HeapPatch
+import YtkModel.HeapSet
 import YtkDriver.HeapWire
 open Lean
 
@@ -136,6 +138,14 @@ def step (st : St) (j : Json) : Except String St := do
         | none => pure ValueSrc.none
     let r := patchOpDoH (← Wire.getStr j "op") (← optStrs j "from") (← optStrs j "path") src st.h root
     pure (out { st with h := r.1 } r.2.tag)
+  | "setOp" =>
+    let root ← reg st j "r"
+    match ← Wire.getNode j "d" with
+    | .cont data =>
+      match setOpH (← Wire.getBool j "merge") (← strsOr j "p") data st.h root with
+      | some (h, _) => pure (out { st with h := h } "ok")
+      | none => pure (out st "outside-model")
+    | _ => throw "setOp: data is not a map"
   | "eval" =>
     let root ← reg st j "r"
     pure (push st (evalH st.h root (← strsOr j "p")))
